@@ -169,6 +169,9 @@ def run_file(res, judge, tracker, fp, name, data, path, rng, tier, full_lines=Tr
         after = errors.RAISE_CONTROLLER_VALUE_ERRORS
         errors.RAISE_CONTROLLER_VALUE_ERRORS = True
         res.count("loads_raised" if raised is not None else "loads_completed")
+        if res.evaluations % 1499 == 1:
+            res.sample(dict(case, outcome=type(raised).__name__ if raised is not None else "returned", flag_after=after,
+                            fired_at=None if fp.fired_at is None else f"{os.path.relpath(fp.fired_at[0], env.SRC)}:{fp.fired_at[1]}"))
         if raised is not None:
             res.hist("exceptions_by_type", type(raised).__name__)
         if after is not flag:
@@ -344,9 +347,6 @@ def run_shard(spec_, res):
         from ._repo_suite import ambient_under_repo_tests
         ambient_under_repo_tests(res, PROPERTY, ["strictness_restored"])
     res.count("unraisable_exceptions", len(unraisable))
-    if spec_["shard"] == 0:
-        res.sample({"file": spec_["files"][0], "fault": "io", "point": 17, "source": "bytesio", "initial_flag": False})
-        res.sample({"file": spec_["files"][0], "fault": "line", "point": "first occurrence of rv/readers/module.py:<process_SEND line>", "source": "path", "initial_flag": True})
 
 
 def finalize(merged, tier):
